@@ -68,13 +68,28 @@ impl FixtureDatabase {
                         return true;
                     }
                 }
+                Stmt::AsyncFor(for_stmt) => {
+                    if self.contains_yield(&for_stmt.body) || self.contains_yield(&for_stmt.orelse)
+                    {
+                        return true;
+                    }
+                }
                 Stmt::With(with_stmt) => {
+                    if self.contains_yield(&with_stmt.body) {
+                        return true;
+                    }
+                }
+                Stmt::AsyncWith(with_stmt) => {
                     if self.contains_yield(&with_stmt.body) {
                         return true;
                     }
                 }
                 Stmt::Try(try_stmt) => {
                     if self.contains_yield(&try_stmt.body)
+                        || try_stmt.handlers.iter().any(|handler| {
+                            let rustpython_parser::ast::ExceptHandler::ExceptHandler(h) = handler;
+                            self.contains_yield(&h.body)
+                        })
                         || self.contains_yield(&try_stmt.orelse)
                         || self.contains_yield(&try_stmt.finalbody)
                     {
